@@ -642,6 +642,56 @@ def r144(ctx, R):
     R.count('R14.4', n, 36)
 
 
+def _origins(ctx, fn, name_node, depth):
+    """[(expression, function)] the name may hold: its single definition,
+    or what the callers bind to the parameter (followed a few hops)."""
+    from psa.rules.c05 import single_def
+    if depth > 4:
+        return []
+    nm = name_node.id
+    d = single_def(fn, nm)
+    if d is not None:
+        if isinstance(d.value, ast.Name):
+            return _origins(ctx, fn, d.value, depth + 1)
+        return [(d.value, fn)]
+    out = []
+    if nm in fn.params:
+        i = fn.params.index(nm)
+        for caller in sorted(ctx.cg.callers.get(fn, ()),
+                             key=lambda x: x.qname):
+            for s_ in ctx.cg.calls_in(caller):
+                if fn not in s_.callees:
+                    continue
+                a_ = C.arg_for_param(s_.node, fn, nm)
+                if a_ is None:
+                    continue
+                if isinstance(a_, ast.Name):
+                    out.extend(_origins(ctx, caller, a_, depth + 1))
+                else:
+                    out.append((a_, caller))
+    return out
+
+
+def _nt_fields_of(ctx, fn, func_expr):
+    """Field names when func_expr names a module-level namedtuple."""
+    d = ctx.prog.dotted(fn.module, func_expr, fn)
+    if not d or '.' not in d:
+        return None
+    mod, nm = d.rsplit('.', 1)
+    m = ctx.prog.modules.get(mod)
+    if m is None or nm not in m.assigns or len(m.assigns[nm]) != 1:
+        return None
+    v = m.assigns[nm][0].value
+    if isinstance(v, ast.Call) and src(v.func).endswith('namedtuple') and \
+            len(v.args) == 2:
+        f_ = v.args[1]
+        if isinstance(f_, ast.Constant) and isinstance(f_.value, str):
+            return f_.value.replace(',', ' ').split()
+        if isinstance(f_, (ast.List, ast.Tuple)):
+            return [x.value for x in f_.elts if isinstance(x, ast.Constant)]
+    return None
+
+
 def _gates_of_test(ctx, f, t):
     """[(minv, polarity)] for the version gates an if-test depends on
     (flag names are followed to their single definition)."""
@@ -661,6 +711,21 @@ def _gates_of_test(ctx, f, t):
         g = ctx.gates.gate_of(fn, e)
         if g is not None and g.minv:
             out.append((g.minv, pol))
+            return
+        if isinstance(e, ast.Attribute) and isinstance(e.value, ast.Name):
+            # a field of a record that carries version flags:
+            # fmt.mappings with fmt = Record(mappings=matches((1, 34)), ...)
+            for ctor, cfn in _origins(ctx, fn, e.value, 0):
+                if not isinstance(ctor, ast.Call):
+                    continue
+                v = C.kwarg(ctor, e.attr)
+                if v is None:
+                    fields = _nt_fields_of(ctx, cfn, ctor.func)
+                    if fields and e.attr in fields and fields.index(
+                            e.attr) < len(ctor.args):
+                        v = ctor.args[fields.index(e.attr)]
+                if v is not None:
+                    rec(v, pol, depth + 1, cfn)
             return
         if isinstance(e, ast.Name):
             d = single_def(fn, e.id)
